@@ -210,3 +210,40 @@ where
     );
     st
 }
+
+/// Single-threaded variant of `explore` for callers that parallelise over inputs themselves.
+/// Returns (executions, max choice points). A replay divergence panics (machinery error).
+pub fn explore_seq(bound: usize, mut body: impl FnMut(&mut Chooser)) -> (u64, u64) {
+    let mut stack: Vec<(Vec<u32>, Vec<u32>)> = vec![(vec![], vec![])];
+    let (mut execs, mut maxp) = (0u64, 0u64);
+    while let Some((prefix, prefix_n)) = stack.pop() {
+        let plen = prefix.len();
+        let mut ch = Chooser::new(prefix, prefix_n);
+        body(&mut ch);
+        if let Some(d) = ch.diverged.take() {
+            panic!("schedule replay divergence: {d}");
+        }
+        execs += 1;
+        maxp = maxp.max(ch.trace.len() as u64);
+        let choices = ch.choices();
+        let ns: Vec<u32> = ch.trace.iter().map(|t| t.1).collect();
+        let mut dev = choices[..plen.min(choices.len())].iter().filter(|c| **c != 0).count();
+        let mut new_items = vec![];
+        for i in plen..choices.len() {
+            if dev + 1 <= bound {
+                for alt in 1..ns[i] {
+                    let mut p = choices[..i].to_vec();
+                    p.push(alt);
+                    new_items.push((p, ns[..i].to_vec()));
+                }
+            }
+            if choices[i] != 0 {
+                dev += 1;
+            }
+        }
+        for it in new_items.into_iter().rev() {
+            stack.push(it);
+        }
+    }
+    (execs, maxp)
+}
